@@ -231,21 +231,54 @@ theorem padT_nonzero_counterexample :
     full (padT [c, c] [(0, 1), (0, 1)] 5) (tIdx [0, 2]) = 5 := by
   decide
 
-/-! ## (j) `pad`, operator branch — NOT proved, statement only
+/-! ## (j) `pad`, operator branch
 
-For a TT-matrix with `padding.length = cs.length = d` (the implementation extends the two ranks of
-every padded interior core by one on each side, so a shorter `padding` yields rank-inconsistent
-cores) the intended statement is
+For a TT-matrix with one padding pair per mode (`padding.length = cs.length`) the result is the
+block-diagonal operator `diag(v·I, A, v·I)` *along the three index patterns* "every mode in the
+leading pad", "every mode in the trailing pad", "every mode inside the original block"; every mixed
+pattern gives `0`.  The three patterns are mutually exclusive, so the entry is the sum of three
+guarded terms (`padBeforeM`, `padAfterM`, `padInsideM`, `padShiftM` are defined in
+`TTLemmas/ExtrasL.lean`; the first two include the Kronecker delta of the identity block). -/
 
-  `full (padM cs padding v) ij =`
-  `  if ∀ k, ij[k].1 < p_k.1 ∧ ij[k].2 < p_k.1           then (if ∀ k, ij[k].1 = ij[k].2 then v else 0)`
-  `  else if ∀ k, p_k.1 + m_k ≤ ij[k].1 ∧ p_k.1 + n_k ≤ ij[k].2`
-  `                                                       then (if ∀ k, ij[k].1 - (p_k.1+m_k) = ij[k].2 - (p_k.1+n_k) then v else 0)`
-  `  else if ∀ k, p_k.1 ≤ ij[k].1 < p_k.1 + m_k ∧ p_k.1 ≤ ij[k].2 < p_k.1 + n_k`
-  `                                                       then full cs (shifted ij)`
-  `  else 0`
+theorem padBeforeM_cons' (p q : Nat × Nat) (ps ij : List (Nat × Nat)) :
+    padBeforeM (p :: ps) (q :: ij) ↔ (q.1 < p.1 ∧ q.2 < p.1 ∧ q.1 = q.2) ∧ padBeforeM ps ij :=
+  padBeforeM_cons p q ps ij
 
-(block-diagonal `diag(v·I, A, v·I)` only along the "all-before / all-inside / all-after" index
-patterns; `v` is carried by the last core, the others carry `1`).  -/
+omit [CommRing α] in
+theorem padAfterM_cons' (c : Core α) (cs : List (Core α)) (p q : Nat × Nat) (ps ij : List (Nat × Nat)) :
+    padAfterM (c :: cs) (p :: ps) (q :: ij) ↔
+      (p.1 + c.m ≤ q.1 ∧ p.1 + c.n ≤ q.2 ∧ q.1 - (p.1 + c.m) = q.2 - (p.1 + c.n)) ∧ padAfterM cs ps ij :=
+  padAfterM_cons c cs p q ps ij
+
+omit [CommRing α] in
+theorem padInsideM_cons' (c : Core α) (cs : List (Core α)) (p q : Nat × Nat) (ps ij : List (Nat × Nat)) :
+    padInsideM (c :: cs) (p :: ps) (q :: ij) ↔
+      (p.1 ≤ q.1 ∧ q.1 < p.1 + c.m ∧ p.1 ≤ q.2 ∧ q.2 < p.1 + c.n) ∧ padInsideM cs ps ij :=
+  padInsideM_cons c cs p q ps ij
+
+theorem padShiftM_cons (p q : Nat × Nat) (ps ij : List (Nat × Nat)) :
+    padShiftM (p :: ps) (q :: ij) = (q.1 - p.1, q.2 - p.1) :: padShiftM ps ij := rfl
+
+/-- operator branch of `pad`, full-length padding, any fill value `v` -/
+theorem full_padM (cs : List (Core α)) (padding ij : List (Nat × Nat)) (v : α) (hne : cs ≠ [])
+    (hlp : cs.length = padding.length) (hli : ij.length = cs.length) (hw : WF cs 1) :
+    full (padM cs padding v) ij =
+      (if padBeforeM padding ij then v else 0) + (if padAfterM cs padding ij then v else 0) +
+      (if padInsideM cs padding ij then full cs (padShiftM padding ij) else 0) :=
+  full_padM_gen cs padding ij v hne hlp hli hw
+
+/-- non-vacuity / sanity: a `2×2` rank-1 operator `[[3,4],[4,5]]` padded by one on both sides with
+    fill 7: corner `(0,0)` is `7`, centre `(1,1)` is `3`, corner `(3,3)` is `7`, mixed `(0,1)` is `0` -/
+example :
+    let c : Core Int := ⟨1, 2, 2, 1, fun _ i j _ => (i + j + 3 : Int)⟩
+    full (padM [c] [(1, 1)] 7) [(0, 0)] = 7 ∧ full (padM [c] [(1, 1)] 7) [(1, 1)] = 3 ∧
+    full (padM [c] [(1, 1)] 7) [(3, 3)] = 7 ∧ full (padM [c] [(1, 1)] 7) [(0, 1)] = 0 := by decide
+
+/-- **observation (model level)**: with fewer padding pairs than modes the operator branch pads the
+    left rank of the first padded core (`k > 0`) but leaves the preceding, unpadded core alone, so
+    the rank chain of the result is inconsistent (`wfB` is the executable twin of `WF`). -/
+theorem padM_short_padding_rank_mismatch :
+    let c : Core Int := ⟨1, 2, 2, 1, fun _ i j _ => (i + j + 3 : Int)⟩
+    wfB (padM [c, c] [(1, 1)] 7) 1 = false := by decide
 
 end TT.C09
